@@ -88,7 +88,12 @@ func TestC15(t *testing.T) {
 		rg := Sub("C15", i)
 		secret := fmt.Sprintf("secret-%x.example.test", rg.Int63())
 		public := "public.example.test"
-		leaf := f.CA.Leaf(peer.LeafOpts{Kind: "ecdsa", Names: []string{secret, public}})
+		leafNames := []string{secret, public}
+		if j.behave == "reject" && i%2 == 0 {
+			// a client-facing server that does not hold the ECH key serves the public name only
+			leafNames = []string{public}
+		}
+		leaf := f.CA.Leaf(peer.LeafOpts{Kind: "ecdsa", Names: leafNames})
 		aeads := []uint16{j.aead}
 		if j.twoAEADs {
 			aeads = append(aeads, []uint16{1, 2, 3}[rg.Intn(3)])
